@@ -545,20 +545,25 @@ func (w *Worker) RunCase(cs *Case, rep *Report) {
 func (w *Worker) crossCheck(cs *Case, x *OracleCtx, rep *Report, srcOf map[*Program]string) {
 	c := x.C
 	vars := append(cs.Prog.Atoms.Vars(), c.IntVars...)
-	r, model := c.CheckModel("true", vars)
+	q := "true"
+	if cs.SymLines {
+		// the native build sees the rendered text: pick the model in which
+		// every line number is the rendered one
+		var ts []string
+		for k := 1; k < len(x.Lines); k++ {
+			if x.Lines[k] != "" {
+				ts = append(ts, fmt.Sprintf("(= %s %d)", x.Lines[k], k))
+			}
+		}
+		q = interp.And(ts...)
+	}
+	r, model := c.CheckModel(q, vars)
 	if r != interp.Sat {
 		rep.crossSkipped()
 		return
 	}
 	values, err := cs.Prog.Atoms.ModelValues(model)
 	if err != nil {
-		rep.crossSkipped()
-		return
-	}
-	if cs.SymLines {
-		// symbolic line numbers cannot be reproduced natively without
-		// changing the layout; the cross-check is done on outputs with the
-		// line numbers of the rendered text, by a separate concrete run
 		rep.crossSkipped()
 		return
 	}
